@@ -32,6 +32,7 @@ done
 fa=0; h=0
 for p in selftest/harmless/*.patch; do
   [ -f "$p" ] || continue
+  [ -n "$SKIP_HARMLESS" ] && continue
   case "$p" in *"$pat"*) ;; *) continue;; esac
   prop=$(basename "$p" | cut -d- -f1)
   git -C /repo worktree remove --force "$tmp/wt" >/dev/null 2>&1
